@@ -103,6 +103,29 @@ Fixpoint set_at (l : list N) (i : nat) (v : N) : list N :=
 Definition to_dense (s : N * list (N * N)) : list N :=
   fold_left (fun acc pv => set_at acc (N.to_nat (fst pv)) (snd pv)) (snd s) (repeatN 0 (N.to_nat (fst s))).
 
+(* SparseVector::try_from_parts(dimension, positions, values): the zipped pairs are walked in order, the
+   first position >= dimension is an error; pairs with value == 0.0 (+0.0 / -0.0) are dropped; the rest is
+   sorted by position with a stable sort (sort_by_key).  (dimension > MAX_DIMENSION is refused as well; the
+   model is used below that limit.) *)
+Fixpoint ins_pair (x : N * N) (l : list (N * N)) : list (N * N) :=
+  match l with
+  | [] => [x]
+  | y :: r => if N.leb (fst x) (fst y) then x :: l else y :: ins_pair x r
+  end.
+Definition sort_pairs (l : list (N * N)) : list (N * N) := fold_right ins_pair [] l.
+Definition from_parts (dim : N) (ps vs : list N) : option (N * list (N * N)) :=
+  let pairs := combine ps vs in
+  if existsb (fun pv => N.leb dim (fst pv)) pairs then None
+  else Some (dim, sort_pairs (filter (fun pv => negb (f32_is_zero (snd pv))) pairs)).
+
+(* tensor_compress::format::decompress_vector, VectorSparse arm, on an ARBITRARY (possibly forged) position
+   list: dense = vec![0.0; dimension]; for each zipped (position, value): if position < dimension then
+   dense[position] = value.  Unsorted, repeated and out-of-range positions are legal inputs: later pairs
+   overwrite earlier ones, out-of-range pairs are skipped, nothing panics. *)
+Definition fsparse_decode (dim : N) (ps vs : list N) : list N :=
+  fold_left (fun acc pv => if N.ltb (fst pv) dim then set_at acc (N.to_nat (fst pv)) (snd pv) else acc)
+            (combine ps vs) (repeatN 0 (N.to_nat dim)).
+
 (* ---------------------------------------------------------------- network frames *)
 Definition be32 (n : N) : list N :=
   [(n / 16777216) mod 256; (n / 65536) mod 256; (n / 256) mod 256; n mod 256].
